@@ -163,6 +163,8 @@ def family(t, sd):
                     break
     items += [{'model': m['model']} for m in ms]
     items += [{'model': m['model']} for m in gen.diverging_family()]
+    nf = gen.nested_family()
+    items += [{'model': m['model']} for m in nf[::(5 if t == 'quick' else 1)]]
     big = [1e-9, 1e9, -1e-9, 123456.789, 0.1, 1 / 3, -2.5e-7, 7e-5, 1e-5, -1e5]
     ls = gen.l_seeded(92, 1500 if t == 'quick' else 20000, named=True, offsets=True, satisfy=True, probe=('coef', 'rhs', 'obj', 'off'))
     ls += gen.l_seeded(93, 1000 if t == 'quick' else 10000, named=True, offsets=True, coefs=[0, 1, -1, 2.5] + big, rhss=[0, 1, -1] + big)
